@@ -31,5 +31,4 @@ theorem extract_eq (x l h : Nat) (hlh : l ≤ h) : extract x l h = x / 2 ^ l % 2
   · have h2 : ¬ i < h - l := by omega
     simp [h1, h2]
 
-#print axioms extract_eq
 end P.Bits
